@@ -38,6 +38,8 @@ class Check(CheckBase):
                 'nops': r.randint(6, 14) if self.tier == 'quick' else r.randint(6, 40),
                 'concurrent': r.choice([1, 2, 3, 5]),
                 'reuse_repos': i % 2 == 1 or i % 8 == 0,
+                # the snapshot cache persists between the commands of a user (the CLI default) or is off
+                'cache': [None, 'per-user', 'shared'][i % 3],
             })
         # non-destructive commands overlapping in time from SEVERAL PROCESSES over one local repository directory
         for i in range(4 if self.tier == 'quick' else 60):
@@ -165,7 +167,7 @@ class Check(CheckBase):
         enc = case['settings'].get('encryption') is not None
         graph = hist.gen_graph(r, enc)
         world = hist.World(case['seed'], case['settings'], case['flavour'], case['concurrent'], graph,
-                           reuse_repos=case.get('reuse_repos', False))
+                           reuse_repos=case.get('reuse_repos', False), cache=case.get('cache'))
 
         async def go():
             await world.setup()
@@ -192,7 +194,7 @@ class Check(CheckBase):
         counters['findings_for_other_properties'] = len(others)
         cls = [f"{hist.graph_class(graph)}|{'enc' if enc else 'plain'}|{case['flavour']}|"
                f"{case['settings']['chunking']['max_length']}|shared-del={bool(counters.get('deletes_sharing_chunks_with_survivor'))}"
-               f"|{'long-lived' if case.get('reuse_repos') else 'per-command'}-repo"]
+               f"|{'long-lived' if case.get('reuse_repos') else 'per-command'}-repo|cache={case.get('cache')}"]
         viol = [{'what': f['what'], 'mechanism': None, 'witness': dict(f['witness'], graph=graph, settings=case['settings'])}
                 for f in mine[:4]]
         return {'verdict': 'violated' if viol else 'held', 'classes': cls, 'counters': counters, 'violations': viol,
